@@ -353,6 +353,20 @@ class Report:
         for d_ in r['disagreements'][:5]:
             self.inconclusive.append('translation validation: extracted C and real library disagree on %s (extractor/model defect, not a property violation)' % d_['case'])
 
+    def validate_stage_translation(self):
+        """the extracted text of the two stage classes vs the real classes on sequential operation scripts (harness/tv_stage.py)"""
+        from harness import tv_stage
+        try:
+            r = tv_stage.run()
+        except Inconclusive as e:
+            self.inconclusive.append('stage translation validation could not run: %s' % e); return
+        if r['status'] == 'inconclusive':
+            self.inconclusive.append('stage translation validation could not run: %s' % str(r.get('detail'))[:400]); return
+        self.notes['translation_validation_stage_classes'] = dict(programs=r['programs'], operations=r['operations'], disagreements=r['disagreements'], what=r['what'])
+        for d_ in (r.get('detail') or [])[:3]:
+            self.inconclusive.append('stage translation validation: extracted C and real class disagree in script %s line %s: %s | %s (extractor/model defect, not a property violation)'
+                                     % (d_['script'], d_['line'], d_['extracted'][:120], d_['real'][:120]))
+
     def finish(self, level, checker_cmd, trusted_base, samples=None, extra=None, explanation=None):
         os.makedirs(EVIDENCE, exist_ok=True)
         kinds = {'contract_clauses': 0, 'language_safety': 0, 'instrumentation_internal': 0}
@@ -408,7 +422,7 @@ def main_wrapper(fn):
 
 TRUSTED_BASE = [
     'CBMC 6.11.0 (goto-cc, goto-instrument --dfcc contract instrumentation, symbolic execution, MiniSat2 back end)',
-    'cxx2c: mechanical C++-subset -> C extraction of /repo/src/Vector/BLF run on every check (rules in DESIGN.md section 4; cross-validated natively by the translation-validation check)',
+    'cxx2c: mechanical C++-subset -> C extraction of /repo/src/Vector/BLF run on every check (rules in DESIGN.md section 4; cross-validated natively by the translation-validation checks: codecs/headers/containers on every reference object image, UncompressedFile and ObjectQueue on sequential operation scripts; the extracted text of File.cpp is not executed natively)',
     'cxx2c/rt/vb_rt.h, contracts/vec_*.h: models of std::vector/std::string/std::array (size exact; allocation fails only as an exception)',
     'assumed interface contract of the pure-virtual AbstractFile::read/write/seekg/tellg (contracts/af_*.h)',
     'x86-64 little-endian data layout, sizeof as on gcc 12',
